@@ -76,10 +76,13 @@ prop(
         "SequenceNumberSet / FragmentNumberSet values are obtained from the real element decoders applied to "
         "harness-written images (bits >= numBits clear, highest bit set - the shape the constructors produce) because "
         "the constructors on a symbolic member list make every encoder length symbolic."),
-    bounds="quick: one or two flag combinations per kind; SequenceNumberSet numBits 34 (ACKNACK) / 41 (GAP) with symbolic "
-           "bitmap; FragmentNumberSet numBits 34 with the concrete members {0,2,32,33} and symbolic base; DATA payload 5 / 4 "
-           "bytes, DATA_FRAG payload 4 bytes, inline QoS <= 1 parameter of 4 bytes; messages <= 64 bytes; unwind <= 64. "
-           "thorough: remaining flag combinations, numBits 0/1/32/64/256, DATA payload 0/8, DATA_FRAG with inline QoS",
+    bounds="quick (7 obligations): HEARTBEAT (final set) through the whole parser; HEARTBEAT_FRAG, INFO_DST, INFO_SRC, PAD; "
+           "ACKNACK with SequenceNumberSet numBits 34 and a symbolic bitmap; NACK_FRAG with the concrete FragmentNumberSet "
+           "{1,3,33,34}; DATA with inline QoS (1 parameter of 4 bytes), key and non-standard flags, 4-byte payload; DATA_FRAG "
+           "with key flag and 4-byte payload; big-endian HEARTBEAT / ACKNACK decode; messages <= 64 bytes; unwind <= 64. "
+           "thorough: GAP (numBits 0/41/64), INFO_TS (both flag values), DATA payload-only (5 bytes) and other DATA shapes "
+           "(payload 0/8), remaining HEARTBEAT flag combinations, ACKNACK numBits 0/1/32/64/256, NACK_FRAG base 0xffffff00, "
+           "DATA_FRAG with inline QoS",
     outside="payloads / submessages longer than 65 535 bytes: write_submessage_into_bytes truncates with `len as u16` "
             "(overall_structure.rs:273) without a check - not decided here (a 65 536-iteration byte-wise Vec::resize per "
             "message is not tractable); the UDP transport limits the fragment size to 65 000 (C38), so the truncation is only "
@@ -110,41 +113,43 @@ prop(
     explanation=(
         "Decided per stage, because parsing a whole datagram of arbitrary bytes is not tractable (C07). "
         "(1) Dispatcher: well-formed datagrams [INFO_TS, HEARTBEAT] and [INFO_SRC, INFO_DST, PAD] with symbolic field values "
-        "go through the real parser, the real MessageReceiver (until exhaustion) and the real "
-        "DcpsDomainParticipant::handle_data of a freshly constructed participant: no panic, the interpreter state "
-        "(source prefix, timestamp) is the one the submessages carry, nothing is sent. "
-        "(2) Per-handler step on a real participant whose built-in publications reader has a matched writer proxy "
-        "(a datagram that claims to come from a discovered participant): GAP with symbolic gapStart / gapList.base - "
-        "termination within the unwinding bound and no panic when base - gapStart <= 8. "
-        "(3) Fragment arithmetic: RtpsStatefulReader::on_data_frag_submessage (push_data_frag, "
-        "reconstruct_data_from_frag, total_fragments_expected) for one DATA_FRAG with symbolic writerSN, "
-        "fragmentStartingNum, fragmentsInSubmessage <= 3, fragmentSize >= 1, dataSize: no overflow, no division by zero, at "
-        "most one sample delivered and only for the expected sequence number; SequenceNumberSet::set() on sets decoded "
-        "from arbitrary bytes. (4) Allocation bounds of the element readers are asserted under C07 (numbers of decoded "
-        "locators / parameters / set words bounded by the input length). "
-        "Seven datagram-reachable defects are recorded as known findings with __known/__rest splits: INFO_REPLY reaches "
-        "todo!() (KF-C06-1); the GAP handler loops gapList.base - gapStart times, up to 2^63 (KF-C06-2, hang); DATA_FRAG "
-        "with fragmentSize 0 divides by zero (KF-C06-3); SequenceNumberSet::set() overflows for a base near i64::MAX "
-        "(KF-C06-4); NACK_FRAG with numBits > 256 indexes out of bounds, FragmentNumberSet base overflow, zero-length "
-        "CDR string in discovery data (KF-C07-1..3)."),
-    bounds="datagrams of 28..64 bytes with concrete framing (submessage ids, flags, lengths) and symbolic values; one matched "
-           "writer proxy in its initial state; one submessage handled per obligation; unwind 5..70",
-    outside="arbitrary (not well-framed) datagram bytes through the whole parser (per-unit totality: C07); the HEARTBEAT, "
-            "ACKNACK, NACK_FRAG, HEARTBEAT_FRAG, DATA and DATA_FRAG handlers on a participant with matched *user* readers / "
-            "writers (not reached: each participant-level harness costs minutes and the protocol steps of these handlers "
-            "are the subject of C01/C05); sequences of datagrams and pre-states other than the initial one; liveness of "
-            "the API afterwards (follows from no panic / termination in the single worker; stated, not checked); discovery "
-            "payload decoding and type-object assignability (execute the XTypes deserializer / DynamicData, not tractable); "
-            "locator-to-socket-address conversion (needs the std UDP transport feature); total memory accounting",
-    level_text="Bounded symbolic execution of the real receive path for the stated datagram shapes; termination is decided "
-               "as 'no unwinding assertion fails' for the stated loop bounds. Not a proof for arbitrary datagrams.",
+        "go through the real parser RtpsMessageRead::try_from and the real MessageReceiver until exhaustion - the pair "
+        "DcpsDomainParticipant::handle_data runs on every datagram: no panic, exactly the entity submessage is yielded, the "
+        "interpreter state (source prefix, timestamp) is the one the submessages carry. "
+        "(3) Fragment arithmetic: RtpsWriterProxy::push_data_frag + reconstruct_data_from_frag (total_fragments_expected) - "
+        "the two calls RtpsStatefulReader::on_data_frag_submessage makes for an accepted fragment - for one DATA_FRAG with "
+        "symbolic writerSN, fragmentStartingNum, fragmentsInSubmessage <= 1, fragmentSize >= 1, dataSize: no overflow, no "
+        "division by zero, a DATA is only reconstructed from a fragment starting at 1; SequenceNumberSet::set() on sets "
+        "decoded from arbitrary bytes (base <= i64::MAX - 256). "
+        "(4) Allocation bounds of the element readers are asserted under C07 (numbers of decoded locators / parameters / set "
+        "words bounded by the input length). "
+        "(2) Per-handler steps on a real participant (INFO_REPLY and GAP through DcpsDomainParticipant::handle_data with a "
+        "matched writer proxy on the built-in publications reader) exist as thorough-tier harnesses; they did not finish "
+        "within 900 s on the shared machine and are NOT part of the quick verdict. "
+        "Datagram-reachable defects recorded as known findings with __known/__rest splits: INFO_REPLY reaches todo!() "
+        "(KF-C06-1, decided); DATA_FRAG with fragmentSize 0 divides by zero (KF-C06-3, decided); SequenceNumberSet::set() "
+        "overflows for a base near i64::MAX (KF-C06-4, decided); NACK_FRAG numBits > 256 index out of bounds, "
+        "FragmentNumberSet base overflow, zero-length CDR string in discovery data (KF-C07-1..3, decided); the GAP handler "
+        "loops gapList.base - gapStart times, up to 2^63 (KF-C06-2: established by reading "
+        "communication_methods.rs:584, harness in the thorough tier, not yet decided by the solver)."),
+    bounds="datagrams of 28..64 bytes with concrete framing (submessage ids, flags, lengths) and symbolic values; writer proxy "
+           "in its initial state with one DATA_FRAG (2-byte payload); sets of <= 32 bits; unwind 3..36",
+    outside="arbitrary (not well-framed) datagram bytes through the whole parser (per-unit totality: C07); every handler of "
+            "DcpsDomainParticipant::handle_data on a real participant (GAP, HEARTBEAT, ACKNACK, NACK_FRAG, HEARTBEAT_FRAG, DATA, "
+            "DATA_FRAG with matched user readers / writers): the participant-level harnesses need > 900 s each on the shared "
+            "machine, the protocol steps of these handlers are the subject of C01/C05; sequences of datagrams and pre-states "
+            "other than the initial one; liveness of the API afterwards (follows from no panic / termination in the single "
+            "worker; stated, not checked); discovery payload decoding and type-object assignability (execute the XTypes "
+            "deserializer / DynamicData, not tractable); locator-to-socket-address conversion (needs the std UDP transport "
+            "feature); total memory accounting",
+    level_text="Bounded symbolic execution of the real receive-path units for the stated datagram shapes; not a proof for "
+               "arbitrary datagrams and not a whole-participant result.",
     level_note="trusted: Kani/CBMC, the harness-side little-endian datagram writer (RTPS 2.x clause 9.4 offsets; that the real "
-               "encoder produces these layouts is C08), critical-section stubs; in c06_gap_range_loop__known the loop body "
-               "RtpsWriterProxy::irrelevant_change_set is replaced by a call counter",
-    technique="Kani/CBMC proof harnesses on DcpsDomainParticipant::handle_data, rtps::message_receiver, rtps::stateful_reader / writer_proxy",
+               "encoder produces these layouts is C08)",
+    technique="Kani/CBMC proof harnesses on rtps_messages::overall_structure::RtpsMessageRead, rtps::message_receiver, rtps::writer_proxy (thorough: DcpsDomainParticipant::handle_data)",
     assumptions=[
-        "critical_section::acquire/release stubbed (sequential schedules)",
-        "NOT trigger KF-C06-1..4 in the respective __rest obligations",
+        "NOT trigger KF-C06-1 / KF-C06-3 / KF-C06-4 in the respective __rest obligations",
+        "thorough tier only: critical_section::acquire/release stubbed; RtpsWriterProxy::irrelevant_change_set replaced by a call counter in c06_gap_range_loop__known",
     ],
     timeout={"quick": 900, "thorough": 1800},
     mem_gb=12,
